@@ -105,16 +105,14 @@ impl SyncOp {
                     timestamp: timestamp2,
                 },
             ) if uuid1 == uuid2 && property1 == property2 => {
-                // if the value is the same, there's no conflict
-                if value1 == value2 {
-                    (None, None)
-                } else if timestamp1 < timestamp2 {
-                    // prefer the later modification
-                    (None, Some(operation2))
-                } else {
-                    // prefer the later modification or, if the modifications are the same,
-                    // just choose one of them
-                    (Some(operation1), None)
+                // The winner must be the same whichever replica syncs first, and whatever other
+                // updates it is compared with later, so order the updates totally: prefer the
+                // later modification or, if they were made at the same time, the greater value.
+                match (timestamp1, value1).cmp(&(timestamp2, value2)) {
+                    // the same modification was made on both sides, so there's no conflict
+                    std::cmp::Ordering::Equal => (None, None),
+                    std::cmp::Ordering::Less => (None, Some(operation2)),
+                    std::cmp::Ordering::Greater => (Some(operation1), None),
                 }
             }
 
